@@ -448,7 +448,7 @@ func c11Floats(rnd *rand.Rand, nRand int) []float64 {
 }
 
 func runC11(r *mon.Run) {
-	r.SetRule("Lit(v)/LitFunc for every supported type; exhaustive bool, 8-bit (both tiers), 16-bit (thorough); wider integers: limits, 2^k+-1, 10^k+-1, random; floats: +-0, subnormals, extremes, every decade 1e-324..1e308 +-1ulp, integral values of every decimal length 1..23, random bit patterns and decimal mantissas; complex: pairs of those. Each batch rendered formatted, NoFormat and via LitFunc; one value of every type next to an import that wants the name of each predeclared numeric/boolean type (as last path element, alias, real name); LitFunc with a stateful function (called exactly once, at construction). non-trivial = every value; distinct by (type,value)")
+	r.SetRule("Lit(v)/LitFunc for every supported type; exhaustive bool, 8-bit (both tiers), 16-bit (thorough); wider integers: limits, 2^k+-1, 10^k+-1, random; floats: +-0, subnormals, extremes, every decade 1e-324..1e308 +-1ulp, integral values of every decimal length 1..23, random bit patterns and decimal mantissas; complex: pairs of those. Each batch rendered formatted, NoFormat and via LitFunc; one value of every type next to an import that wants the name of each predeclared numeric/boolean type (as last path element, alias, real name); LitFunc with a stateful function (called exactly once, at construction); literals as operands of *, + and - inside list items (composite-literal elements, Dict values, call arguments, assignment lists) and outside, evaluated as constants. non-trivial = every value; distinct by (type,value)")
 	r.Assume("'exactly v' for floats is read as 'the constant converts to exactly v in its type'; +0 and -0 are identified because Go constants have no negative zero; NaN/Inf excluded by the statement")
 	c11NegControls(r)
 	batches := c11Batches(r)
@@ -465,6 +465,7 @@ func runC11(r *mon.Run) {
 	mon.Parallel(len(batches), func(bi int) { c11Batch(r, batches, bi) })
 	c11MixedKinds(r)
 	c11Neighbours(r)
+	c11Operands(r)
 	r.Sample(map[string]interface{}{"batch": batches[len(batches)/2].name, "first_values": fmt.Sprintf("%v", first2(batches[len(batches)/2].vals, 8))})
 }
 
@@ -609,6 +610,141 @@ func c11Neighbours(r *mon.Run) {
 		r.Eval("litfunc-stateful", true)
 		r.Count("stateful_litfunc_constructions", int64(len(want)))
 	}
+}
+
+// c11Operands: a literal is one operand: next to an operator it must keep its value, also when the expression is an
+// item of a comma-separated list (arguments, composite-literal elements, Dict values, assignment lists).
+func c11Operands(r *mon.Run) {
+	vals := []interface{}{complex(1, 2), complex(-1.5, 0.25), complex(3, -4), complex(0, 1), complex(2.5e10, -1e-3), complex64(complex(1, 2)), complex64(complex(-3, 0.5)),
+		-1.5, 2.25, float32(-0.5), -7, 7, int8(-3), int64(-1 << 20), uint8(9)}
+	c := mon.Case{Gen: "operands", Seed: r.Seed}
+	for _, noFormat := range []bool{false, true} {
+		f := jen.NewFile("p")
+		f.NoFormat = noFormat
+		f.Func().Id("lst").Params(jen.Id("x").Op("...").Interface()).Block()
+		type want struct{ re, im float64 }
+		var expect []want
+		num := func(v interface{}) (float64, float64) {
+			switch x := v.(type) {
+			case complex128:
+				return real(x), imag(x)
+			case complex64:
+				return float64(real(x)), float64(imag(x))
+			case float64:
+				return x, 0
+			case float32:
+				return float64(x), 0
+			case int:
+				return float64(x), 0
+			case int8:
+				return float64(x), 0
+			case int64:
+				return float64(x), 0
+			case uint8:
+				return float64(x), 0
+			}
+			return 0, 0
+		}
+		for i, v := range vals {
+			re, im := num(v)
+			_, unsigned := v.(uint8)
+			mk := func() []jen.Code {
+				items := []jen.Code{jen.Lit(v).Op("*").Lit(v), jen.Lit(v).Op("+").Lit(v).Op("*").Lit(v)}
+				if !unsigned {
+					items = append(items, jen.Lit(v).Op("-").Lit(v).Op("-").Lit(v))
+				}
+				return items
+			}
+			exp := []want{{re*re - im*im, 2 * re * im}, {re + re*re - im*im, im + 2*re*im}}
+			if !unsigned {
+				exp = append(exp, want{-re, -im})
+			}
+			// five contexts
+			f.Var().Id(fmt.Sprintf("A%d", i)).Op("=").Index().Interface().Values(mk()...)
+			d := jen.Dict{}
+			for k, it := range mk() {
+				d[jen.Lit(k)] = it
+			}
+			f.Var().Id(fmt.Sprintf("B%d", i)).Op("=").Map(jen.Int()).Interface().Values(d)
+			f.Func().Id(fmt.Sprintf("F%d", i)).Params().Block(jen.Id("lst").Call(mk()...))
+			if its := mk(); len(its) == 3 {
+				f.Var().List(jen.Id(fmt.Sprintf("C%d", i)), jen.Id(fmt.Sprintf("D%d", i)), jen.Id(fmt.Sprintf("E%d", i))).Op("=").List(its...)
+			} else {
+				f.Var().List(jen.Id(fmt.Sprintf("C%d", i)), jen.Id(fmt.Sprintf("D%d", i))).Op("=").List(its...)
+			}
+			for k, it := range mk() {
+				f.Var().Id(fmt.Sprintf("G%d_%d", i, k)).Op("=").Add(it)
+			}
+			for ctx := 0; ctx < 5; ctx++ {
+				expect = append(expect, exp...)
+			}
+		}
+		src, fail := renderFile(f)
+		if fail != "" {
+			r.Violate("batch-unusable", c, "literals as operands: %s", fail)
+			continue
+		}
+		fset := token.NewFileSet()
+		af, err := parser.ParseFile(fset, "o.go", src, parser.SkipObjectResolution)
+		if err != nil {
+			r.Violate("batch-unusable", c, "literals as operands: output does not parse: %v", err)
+			continue
+		}
+		info := &types.Info{Types: map[ast.Expr]types.TypeAndValue{}}
+		conf := types.Config{Error: func(error) {}}
+		conf.Check("p", fset, []*ast.File{af}, info)
+		var items []ast.Expr
+		ast.Inspect(af, func(n ast.Node) bool {
+			switch x := n.(type) {
+			case *ast.CompositeLit:
+				for _, e := range x.Elts {
+					if kv, ok := e.(*ast.KeyValueExpr); ok {
+						items = append(items, kv.Value)
+					} else {
+						items = append(items, e)
+					}
+				}
+			case *ast.CallExpr:
+				if id, ok := x.Fun.(*ast.Ident); ok && id.Name == "lst" {
+					items = append(items, x.Args...)
+				}
+			case *ast.ValueSpec:
+				if len(x.Values) > 0 {
+					if _, isLit := x.Values[0].(*ast.CompositeLit); !isLit {
+						items = append(items, x.Values...)
+					}
+				}
+			}
+			return true
+		})
+		if len(items) != len(expect) {
+			r.Violate("batch-unusable", c, "literals as operands: %d item expressions found, want %d\n%s", len(items), len(expect), mon.Trunc(string(src), 1500))
+			continue
+		}
+		bad := 0
+		for k, e := range items {
+			tv, ok := info.Types[e]
+			text := string(src[fset.Position(e.Pos()).Offset:fset.Position(e.End()).Offset])
+			if !ok || tv.Value == nil {
+				r.Violate("literal-as-operand", c, "item %d %q is not a constant expression (NoFormat=%v)", k, text, noFormat)
+				bad++
+			} else {
+				re, _ := constant.Float64Val(constant.Real(tv.Value))
+				im, _ := constant.Float64Val(constant.Imag(tv.Value))
+				we := expect[k]
+				close := func(a, b float64) bool { return a == b || math.Abs(a-b) <= 1e-6*math.Max(math.Abs(a), math.Abs(b)) }
+				if !close(re, we.re) || !close(im, we.im) {
+					r.Violate("literal-as-operand", c, "item %d %q has the value (%g, %gi), want (%g, %gi): the literal did not stay one operand (NoFormat=%v)", k, text, re, im, we.re, we.im, noFormat)
+					bad++
+				}
+			}
+			if bad > 5 {
+				break
+			}
+		}
+		r.Count("literals_as_operands_in_list_items", int64(len(items)))
+	}
+	r.Eval("operands", true)
 }
 
 // c11MixedKinds: one File in which the same number appears as a rune literal, a byte literal and as Lit of
@@ -818,6 +954,10 @@ func fmtExact(v interface{}) string {
 func replayC11(r *mon.Run, c mon.Case) {
 	if c.Gen == "neighbour" || c.Gen == "litfunc-stateful" {
 		c11Neighbours(r)
+		return
+	}
+	if c.Gen == "operands" {
+		c11Operands(r)
 		return
 	}
 	batches := c11Batches(r)
